@@ -54,6 +54,7 @@ type board struct {
 var (
 	reNat = regexp.MustCompile(`^[0-9]{1,9}$`)
 	reInt = regexp.MustCompile(`^-?[0-9]{1,9}$`)
+	reOver = regexp.MustCompile(`^over=[0-9]{1,4}$`)
 	reHex = regexp.MustCompile(`^([0-9a-fA-F][0-9a-fA-F])+$`)
 )
 
@@ -205,6 +206,8 @@ func boardID(q []byte) *ptttype.BoardID_t {
 	return b
 }
 
+var reloadPanic string // "PANIC" when the last ReloadBCache panicked
+
 // setTable writes .BRD, reloads the board cache and returns the reset line carrying the real BSorted arrays.
 func setTable(bs []board) string {
 	var buf bytes.Buffer
@@ -230,7 +233,7 @@ func setTable(bs []board) string {
 			cache.Shm.Shm.BSorted[k][i] = 0
 		}
 	}
-	cache.ReloadBCache()
+	reloadPanic = hx.CallSync(func() string { cache.ReloadBCache(); return "" })
 	cur = readTable()
 	var sb strings.Builder
 	fmt.Fprintf(&sb, "reset %d %d ", maxBoard, nameLen)
@@ -393,7 +396,7 @@ func do(line string) {
 		return
 	}
 	switch {
-	case ws[0] == "reset" && (len(ws) == 6 || (len(ws) == 7 && ws[6] == "busy")):
+	case ws[0] == "reset" && (len(ws) == 6 || (len(ws) == 7 && (ws[6] == "busy" || reOver.MatchString(ws[6])))):
 		_, ok1 := parseNat(ws[1])
 		_, ok2 := parseNat(ws[2])
 		bs, ok3 := parseBoards(ws[3])
@@ -408,10 +411,17 @@ func do(line string) {
 			}
 		}
 		if len(bs) > maxBoard {
-			bad() // cannot be loaded; never generated
+			bad() // a line never shows more than the table holds; an oversized file is `over=<k>`
 			return
 		}
-		if len(ws) == 7 {
+		if len(ws) == 7 && ws[6] != "busy" {
+			// an oversized .BRD: k more records behind the ones of the line
+			k, _ := strconv.Atoi(ws[6][5:])
+			for i := 0; i < k; i++ {
+				bs = append(bs, mkBoard(fmt.Sprintf("over%d", i), "zzzz", ' ', false))
+			}
+		}
+		if len(ws) == 7 && ws[6] == "busy" {
 			// the table is (re)loaded by a daemon that finds BBusyState left set by a loader that died holding it
 			cache.Shm.Shm.BBusyState = 1
 		}
